@@ -82,7 +82,12 @@ type URIParamsLst struct {
 
 // Reset re-initializes the parsed parameter list
 func (l *URIParamsLst) Reset() {
-	for i := 0; i < l.PNo(); i++ {
+	// reset also the slot of a partially parsed parameter (Params[N])
+	n := l.N + 1
+	if n > len(l.Params) {
+		n = len(l.Params)
+	}
+	for i := 0; i < n; i++ {
 		l.Params[i].Reset()
 	}
 	t := l.Params
